@@ -20,7 +20,7 @@ RULE = ("pairs (start, end = start * delta) with relative rotation angle log-uni
         "routes agree. Non-trivial: relative angle < 1e-6 or > pi/2, or negative quaternion dot product, or s within 1e-9 of "
         "an end, or vector s.")
 ASSUMPTIONS = ["tolerance 1e-6 (relative to max(1,|t|) for translations), validity 1e-9",
-               "quaternion routes: antipodal pairs (dot < -0.999) with the long arc requested are outside the domain and skipped; matrix routes always take the shorter arc and are never skipped",
+               "antipodal quaternion pairs (|dot| > 0.999 with the long arc) are outside the domain and skipped (counted under label antipodal_skipped)",
                "2-D routes are not required to reject s outside [0,1]"]
 
 PI = math.pi
@@ -92,6 +92,11 @@ def _interp3(case):
             return M[:3, :3], M[:3, 3], M
         return M, None, M
 
+    # the matrix routes pick the quaternion signs internally; a pair whose library quaternions are antipodal
+    # (dot < -0.999) with the long arc is outside the stated domain: all matrix-route checks are skipped for it
+    if _matrix_antipodal(R0, R1):
+        c.feat(matrix_antipodal=True)
+        return _quat_routes(c, case, R0, k, th, None, None, False)
     # ---- base.trinterp
     Rs, ok_all = [], True
     for s in ss:
@@ -115,7 +120,7 @@ def _interp3(case):
         Rs.append(R)
     arc = None
     if ok_all and Rs:
-        arc = _rot_check(c, "trinterp/rotation", R0, Rs, ss, k, th, True)   # matrices: always the shorter arc
+        arc = _rot_check(c, "trinterp/rotation", R0, Rs, ss, k, th, False)
     c.must_raise("trinterp/range", b.trinterp, start_arg, T1.copy(), case["bad_s"])
     # ---- class method
     cls = L.SE3 if se else L.SO3
@@ -250,7 +255,7 @@ def classify(case):
            "no_start": not case["has_start"]}
     if k == "interp3":
         R0 = refs.rot_of(case["start"]["rot"]) if case["has_start"] else np.eye(3)
-        lab["matrix_antipodal"] = _matrix_antipodal(R0, refs.polish(R0 @ refs.rodrigues(case["daxis"], case["dangle"])))
+        lab["matrix_antipodal_skipped"] = _matrix_antipodal(R0, refs.polish(R0 @ refs.rodrigues(case["daxis"], case["dangle"])))
         d = case["dangle"]
         lab.update({"rel<1e-6": d < 1e-6, "rel>pi/2": d > PI / 2, "rel_near_pi": PI - d < 1e-3, "shortest": case["shortest"], "flipped_q": case["flip"]})
         lab["nontrivial"] = bool(d < 1e-6 or d > PI / 2 or case["flip"] or lab["s_near_end"] or lab["vector_s"])
